@@ -41,7 +41,9 @@ VARIABLES free,      \* Seq(Ids): the deque of recycled / not yet used ids (requ
           reqs,      \* _requests: function from a subset of Ids to the request registered there
           orphans,   \* orphaned_request_ids
           srv,       \* set of <<id, r>>: the node still owes request r's answer on stream id
-          st,        \* per request: new, borrowed, sent, refused, done, timedout, errored
+          st,        \* per request: new, borrowed, sending, sent, refused, done, timedout, errored
+          ph,        \* per request: "encode" while its client thread is inside send_msg between registering
+                     \*   the handler and pushing the encoded frame, else "none"
           rid,       \* per request: its stream id (or -1)
           got,       \* per request: set of answers delivered to its handler (named by the request they answer)
           errs,      \* per request: number of connection-error invocations of its handler
@@ -51,7 +53,7 @@ VARIABLES free,      \* Seq(Ids): the deque of recycled / not yet used ids (requ
           defunct, closed,
           writable,  \* _socket_writable: FALSE while the reactor's write buffer is full (send_msg raises ConnectionBusy)
           act        \* last action, for replay
-vars == <<free, highest, inflight, reqs, orphans, srv, st, rid, got, errs, cps, pages, cperr, defunct, closed, writable, act>>
+vars == <<free, highest, inflight, reqs, orphans, srv, st, ph, rid, got, errs, cps, pages, cperr, defunct, closed, writable, act>>
 
 Range(f) == {f[x] : x \in DOMAIN f}
 SeqSet(s) == {s[i] : i \in 1..Len(s)}
@@ -66,6 +68,7 @@ Init ==
     /\ orphans = {}
     /\ srv = {}
     /\ st = [r \in Reqs |-> "new"]
+    /\ ph = [r \in Reqs |-> "none"]
     /\ rid = [r \in Reqs |-> -1]
     /\ got = [r \in Reqs |-> {}]
     /\ errs = [r \in Reqs |-> 0]
@@ -92,29 +95,42 @@ Borrow(r) ==
        /\ act' = A("Borrow", r, id)
     /\ inflight' = inflight + 1
     /\ st' = [st EXCEPT ![r] = "borrowed"]
-    /\ UNCHANGED <<reqs, orphans, srv, got, errs, cps, pages, cperr, defunct, closed, writable>>
+    /\ UNCHANGED <<reqs, orphans, srv, ph, got, errs, cps, pages, cperr, defunct, closed, writable>>
 
-(* Connection.send_msg from ResponseFuture._query *)
+(* Connection.send_msg from ResponseFuture._query, first half: shutdown / writability checks and the   *)
+(* registration of the handler (adjacent statements, one step); the thread then encodes the message.  *)
 Send(r) ==
     /\ st[r] = "borrowed"
     /\ IF Dead
        THEN \* ConnectionShutdown raised; _query returns the connection to the pool (in_flight -= 1)
             /\ st' = [st EXCEPT ![r] = "refused"]
             /\ inflight' = inflight - 1
-            /\ UNCHANGED <<reqs, srv, free>>
+            /\ UNCHANGED <<reqs, free, ph>>
        ELSE IF ~writable
        THEN \* ConnectionBusy: the request moves on to the next host; the unused stream id and the
             \* capacity it took are given back (the connection is alive and keeps being used)
             /\ st' = [st EXCEPT ![r] = "refused"]
             /\ inflight' = inflight - 1
             /\ free' = Append(free, rid[r])
-            /\ UNCHANGED <<reqs, srv>>
-       ELSE /\ st' = [st EXCEPT ![r] = "sent"]
+            /\ UNCHANGED <<reqs, ph>>
+       ELSE /\ st' = [st EXCEPT ![r] = "sending"]
             /\ reqs' = (rid[r] :> r) @@ reqs
-            /\ srv' = srv \cup {<<rid[r], r>>}
+            /\ ph' = [ph EXCEPT ![r] = "encode"]
             /\ UNCHANGED <<inflight, free>>
     /\ act' = A("Send", r, rid[r])
-    /\ UNCHANGED <<highest, orphans, rid, got, errs, cps, pages, cperr, defunct, closed, writable>>
+    /\ UNCHANGED <<highest, orphans, srv, rid, got, errs, cps, pages, cperr, defunct, closed, writable>>
+
+(* second half of send_msg: the encoded frame is pushed.  If the connection failed meanwhile the handler *)
+(* was already errored by FailAll (it was registered) and the bytes go nowhere.                          *)
+Push(r) ==
+    /\ ph[r] = "encode"
+    /\ ph' = [ph EXCEPT ![r] = "none"]
+    /\ IF ~Dead /\ st[r] = "sending"
+       THEN /\ st' = [st EXCEPT ![r] = "sent"]
+            /\ srv' = srv \cup {<<rid[r], r>>}
+       ELSE UNCHANGED <<st, srv>>
+    /\ act' = A("Push", r, rid[r])
+    /\ UNCHANGED <<free, highest, inflight, reqs, orphans, rid, got, errs, cps, pages, cperr, defunct, closed, writable>>
 
 (* Connection.process_msg for the answer to request q on stream id (whole callback, loop thread) *)
 Respond(id, q) ==
@@ -136,7 +152,7 @@ Respond(id, q) ==
                /\ inflight' = inflight - released
                /\ act' = A("RespondLate", q, id)
     /\ free' = Append(free, id)
-    /\ UNCHANGED <<highest, rid, errs, cps, pages, cperr, defunct, closed, writable>>
+    /\ UNCHANGED <<highest, ph, rid, errs, cps, pages, cperr, defunct, closed, writable>>
 
 (* Continuous paging (DSE): the node streams several pages on the request's stream.  The first page goes *)
 (* to the request's handler, which returns the connection to the pool (in_flight -= 1) and registers a   *)
@@ -166,7 +182,7 @@ RespondPage(id, q, last) ==
                /\ act' = A(IF last THEN "OnlyPage" ELSE "FirstPage", r, id)
             /\ inflight' = inflight - 1
     /\ free' = IF last THEN Append(free, id) ELSE free
-    /\ UNCHANGED <<highest, orphans, rid, errs, cperr, defunct, closed, writable>>
+    /\ UNCHANGED <<highest, orphans, ph, rid, errs, cperr, defunct, closed, writable>>
 
 (* ResponseFuture._on_timeout (whole callback, loop thread) *)
 Timeout(r) ==
@@ -178,7 +194,17 @@ Timeout(r) ==
     /\ orphans' = orphans \cup {rid[r]}
     /\ st' = [st EXCEPT ![r] = "timedout"]
     /\ act' = A("Timeout", r, rid[r])
-    /\ UNCHANGED <<free, highest, inflight, srv, rid, got, errs, cps, pages, cperr, defunct, closed, writable>>
+    /\ UNCHANGED <<free, highest, inflight, srv, ph, rid, got, errs, cps, pages, cperr, defunct, closed, writable>>
+
+(* _on_timeout running for a request whose answer was already processed (the timer's cancellation lost the *)
+(* race, or send_request called it): the handler is gone, the stream id belongs to nobody (or was recycled) *)
+(* - nothing about the connection may change.  Scope: only while the id has not been handed out again.     *)
+TimeoutStale(r) ==
+    /\ st[r] = "done"
+    /\ ~Dead
+    /\ rid[r] \notin DOMAIN reqs /\ rid[r] \notin DOMAIN cps
+    /\ act' = A("TimeoutStale", r, rid[r])
+    /\ UNCHANGED <<free, highest, inflight, reqs, orphans, srv, st, ph, rid, got, errs, cps, pages, cperr, defunct, closed, writable>>
 
 (* Connection.defunct / close: every registered handler gets one connection error; the request's     *)
 (* error handling returns the connection to the pool (in_flight -= 1 per errored request).           *)
@@ -192,7 +218,7 @@ FailAll(name, failSessions) ==
     /\ reqs' = <<>>
     /\ srv' = {}                               \* the socket is gone: nothing more will arrive
     /\ act' = A(name, None, -1)
-    /\ UNCHANGED <<free, highest, orphans, rid, got, cps, pages, writable>>
+    /\ UNCHANGED <<free, highest, orphans, ph, rid, got, cps, pages, writable>>
 
 (* the reactor's write buffer fills up / drains (libev reactor); any thread's send is refused meanwhile *)
 SetWritable(w) ==
@@ -200,13 +226,13 @@ SetWritable(w) ==
     /\ ~Dead /\ writable # w
     /\ writable' = w
     /\ act' = A(IF w THEN "SocketWritable" ELSE "SocketBusy", None, -1)
-    /\ UNCHANGED <<free, highest, inflight, reqs, orphans, srv, st, rid, got, errs, cps, pages, cperr, defunct, closed>>
+    /\ UNCHANGED <<free, highest, inflight, reqs, orphans, srv, st, ph, rid, got, errs, cps, pages, cperr, defunct, closed>>
 
 SocketError == FailAll("SocketError", TRUE) /\ defunct' = TRUE /\ closed' = TRUE
 Close       == FailAll("Close", CloseFailsSessions) /\ closed' = TRUE /\ UNCHANGED defunct
 
 Next ==
-    \/ \E r \in Reqs : Borrow(r) \/ Send(r) \/ Timeout(r)
+    \/ \E r \in Reqs : Borrow(r) \/ Send(r) \/ Push(r) \/ Timeout(r) \/ TimeoutStale(r)
     \/ \E id \in Ids, q \in Reqs : Respond(id, q)
     \/ \E id \in Ids, q \in Reqs, last \in BOOLEAN : RespondPage(id, q, last)
     \/ SocketError
@@ -222,11 +248,11 @@ TypeOK ==
     /\ highest \in 0..MaxId
     /\ DOMAIN reqs \subseteq Ids
 
-InUse == {rid[r] : r \in {x \in Reqs : st[x] \in {"borrowed", "sent"}}} \cup orphans
+InUse == {rid[r] : r \in {x \in Reqs : st[x] \in {"borrowed", "sending", "sent"}}} \cup orphans
         \cup {m[1] : m \in srv} \cup DOMAIN cps
 
 UniqueIds ==
-    /\ \A a, b \in Reqs : a # b /\ st[a] \in {"borrowed", "sent"} /\ st[b] \in {"borrowed", "sent"} => rid[a] # rid[b]
+    /\ \A a, b \in Reqs : a # b /\ st[a] \in {"borrowed", "sending", "sent"} /\ st[b] \in {"borrowed", "sending", "sent"} => rid[a] # rid[b]
     /\ \A i, j \in 1..Len(free) : i # j => free[i] # free[j]
     /\ ~Dead => SeqSet(free) \cap InUse = {}               \* an id in use is never also available
 
@@ -240,9 +266,9 @@ IdBound == highest <= MaxId /\ \A r \in Reqs : rid[r] <= MaxId
 NoIdExhaustion == (~Dead /\ inflight < MaxId /\ cps = <<>>) => (free # <<>> \/ highest < MaxId)
 
 Accounting ==
-    ~Dead => inflight = Cardinality({r \in Reqs : st[r] \in {"borrowed", "sent"}}) + Cardinality(orphans)
+    ~Dead => inflight = Cardinality({r \in Reqs : st[r] \in {"borrowed", "sending", "sent"}}) + Cardinality(orphans)
 
-Quiescent == /\ \A r \in Reqs : st[r] \notin {"borrowed", "sent"}
+Quiescent == /\ \A r \in Reqs : st[r] \notin {"borrowed", "sending", "sent"} /\ ph[r] = "none"
              /\ srv = {}
 
 Recycled == (Quiescent /\ ~Dead) => /\ inflight = 0
@@ -254,7 +280,7 @@ Recycled == (Quiescent /\ ~Dead) => /\ inflight = 0
 (* C10 *)
 FailedOnce == \A r \in Reqs : errs[r] <= 1 /\ cperr[r] <= 1
 AllFailed  == Dead => /\ reqs = <<>>
-                      /\ \A r \in Reqs : st[r] # "sent"
+                      /\ \A r \in Reqs : st[r] \notin {"sending", "sent"}
                       /\ \A r \in Reqs : st[r] = "errored" <=> errs[r] = 1
                       /\ (defunct \/ CloseFailsSessions) => \A r \in Range(cps) : cperr[r] = 1   \* open paging sessions too
 NothingAfterDeath == [][Dead => got' = got /\ pages' = pages]_vars
@@ -266,6 +292,8 @@ Witness_Grow == ~(highest = MaxId - 1 /\ highest > InitFree - 1)
 Witness_ErroredTwoAtOnce == ~(Cardinality({r \in Reqs : st[r] = "errored"}) >= 2)
 Witness_SessionOpen == cps = <<>>
 Witness_SessionFailed == \A r \in Reqs : cperr[r] = 0
+Witness_FailWhileEncoding == ~(\E r \in Reqs : ph[r] = "encode" /\ st[r] = "errored")
+Witness_StaleTimeout == act.name # "TimeoutStale"
 Witness_Busy == ~(\E r \in Reqs : st[r] = "refused" /\ ~Dead)
 Witness_Refused == \A r \in Reqs : st[r] # "refused"
 =============================================================================
